@@ -195,6 +195,24 @@ func mutantsFor(s *sink, name string, classes map[string]bool, capPer int) {
 			nb := append(append([]byte(nil), b[:sp.Start]...), b[sp.End:]...)
 			s.emit("absent", name, nb, nil, true, "")
 		}
+		// ... and one member of a struct-typed member removed: the last members of the nested struct (nothing but the
+		// StructEnd behind the gap), then an earlier one
+		nested := 0
+		for _, sp := range spans {
+			if sp.Ty != tSB || nested >= capPer || sp.End-1 <= sp.Body {
+				continue
+			}
+			inner := b[sp.Body : sp.End-1]
+			isp, err := split(inner, nil)
+			if err != nil || len(isp) == 0 {
+				continue
+			}
+			nested++
+			for j := len(isp) - 1; j >= 0 && j >= len(isp)-3; j-- {
+				nb := append(append([]byte(nil), b[:sp.Body+isp[j].Start]...), b[sp.Body+isp[j].End:]...)
+				s.emit("absent", name, nb, nil, true, "nested")
+			}
+		}
 	}
 	if classes["prefix"] {
 		cuts := map[int]bool{}
@@ -305,6 +323,7 @@ func mutantsCmd(args []string) error {
 	capPer := fs.Int("cap", 6, "fields / lengths mutated per value")
 	cls := fs.String("classes", "extra,absent,prefix,inflate,subst,garbage", "corpus classes")
 	only := fs.String("only", "", "comma separated struct name prefixes (default all)")
+	extra := fs.String("extra", "", "comma separated registry names outside the generated set (tup.Attr)")
 	fs.Parse(args)
 	classes := map[string]bool{}
 	for _, c := range strings.Split(*cls, ",") {
@@ -318,7 +337,15 @@ func mutantsCmd(args []string) error {
 		}
 		s.ws = append(s.ws, w)
 	}
-	for _, name := range regOrder {
+	names := append([]string(nil), regOrder...)
+	genSet := map[string]struct{}{}
+	for _, n := range regOrder {
+		genSet[n] = struct{}{}
+	}
+	if *extra != "" {
+		names = append(names, strings.Split(*extra, ",")...)
+	}
+	for _, name := range names {
 		if *only != "" {
 			match := false
 			for _, p := range strings.Split(*only, ",") {
@@ -330,7 +357,11 @@ func mutantsCmd(args []string) error {
 				continue
 			}
 		}
-		for i := 0; i < *per; i++ {
+		n := *per
+		if _, generated := genSet[name]; !generated && n < 24 {
+			n = 24 // the pseudo structs have one member: more values instead
+		}
+		for i := 0; i < n; i++ {
 			mutantsFor(s, name, classes, *capPer)
 		}
 	}
